@@ -7,7 +7,7 @@ import json, os
 TRACE_ENV = {"JAVA_TOOL_OPTIONS": "-Xss512m"}
 
 
-def exhaustive(ctx, cursor=False):
+def exhaustive(ctx, cursor=False, devs=()):
     """model-check the oracle itself: algebraic laws of Denote over every tiny database and
     every query of depth <= 1 (quick) plus wider/deeper universes (thorough)"""
     if ctx.replay:
@@ -23,6 +23,9 @@ def exhaustive(ctx, cursor=False):
     # anti-vacuity: a projection that keeps duplicates must violate the project law
     ctx.tlc_mc("MC_Relational.tla", "Relational_dev_nodedup.cfg", timeout=600,
                expect_violation="LawProject", count=False)
+    # property specific deviations: (cfg, law that must be violated)
+    for cfg, law in devs:
+        ctx.tlc_mc("MC_Relational.tla", cfg, timeout=600, expect_violation=law, count=False)
     ctx.assumptions.append(
         "TLC bounds (oracle laws): tables t1(a,b) <= 2 rows, t2(b,c) <= 1 row over 2 values "
         "(thorough: 3 values incl. \"\"), every query of one operator on a base table drawn from "
